@@ -1,15 +1,25 @@
 #!/bin/bash
-# usage: tools/try_mutant.sh <patch.diff> <prop> [<prop> ...]   — applies the patch to /repo, runs the checks, undoes it
+# usage: tools/try_mutant.sh <patch.diff> <prop> [<prop> ...] — applies the patch to a scratch worktree of /repo (/tmp/tm, with
+# its own copy of the harness, created on first use and kept until `tools/try_mutant.sh --clean`), runs the checks against it,
+# undoes it.  /repo itself is not touched.  (The Lean side is not rebuilt: patches never touch it.)
 set -u
-patch="$1"; shift
-cd /repo || exit 2
+TM=/tmp/tm
+if [ "${1:-}" = "--clean" ]; then git -C /repo worktree remove --force $TM/repo 2>/dev/null; rm -rf $TM; git -C /repo worktree prune; exit 0; fi
+patch=$(readlink -f "$1"); shift
+if [ ! -d $TM/repo ]; then
+  mkdir -p $TM; git -C /repo worktree prune; git -C /repo worktree add --detach $TM/repo HEAD -q || exit 2
+fi
+git -C $TM/repo checkout -q --detach $(git -C /repo rev-parse HEAD) 2>/dev/null
+rsync -a --exclude target /verif/harness/ $TM/harness/
+sed -i "s#/repo/#$TM/repo/#g" $TM/harness/Cargo.toml
+cd $TM/repo || exit 2
+git checkout -q -- .
 git apply --check "$patch" || { echo "patch does not apply"; exit 2; }
 git apply "$patch"
 cd /verif
-export VERIF_EVIDENCE_DIR=/verif/run/evidence-mutant
+export VERIF_HARNESS_DIR=$TM/harness VERIF_EVIDENCE_DIR=$TM/evidence VERIF_RUN_DIR=$TM/run VERIF_SKIP_LEAN=1
 for p in "$@"; do
   out=$(timeout 1200 ./check run "$p" 2>&1 | grep -E "^(VIOLATION|KNOWN|C[0-9]+ tier|BUILD-FAILED|CHECK-ERROR)" | head -4)
   echo "[$p] $out"
 done
-git -C /repo checkout -- . 
-git -C /repo status --short | head -3
+git -C $TM/repo checkout -- .
